@@ -29,6 +29,12 @@ def real_lemmas(ctx, env):
 
 def base_env(model, ctx):
     env = {}
+    # free integer / boolean constants that are not field atoms (clk, max_cycles, flags ...)
+    extra = []
+    for d in model.decls():
+        if d.arity() == 0 and d.name() not in ctx.atoms:
+            extra.append((d(), model[d]))
+    env["__extra__"] = extra
     for name, v in ctx.atoms.items():
         if name in ctx.defs:
             continue
